@@ -4,16 +4,16 @@
 set -u
 N=$1; shift; CHECKS="$@"
 for k in 1 2 3 4; do
-  OUT=/verif/seeded/harmless/${N}_$k; [ -f $OUT/patch.diff ] || continue
-  S=/var/tmp/pd-harmless-${N}_$k; rm -rf $S; cp -r /repo $S
+  OUT=/verif/seeded/${HARMLESS_DIR:-harmless}/${N}_$k; [ -f $OUT/patch.diff ] || continue
+  S=/var/tmp/pd-${HARMLESS_DIR:-harmless}-${N}_$k; rm -rf $S; cp -r /repo $S
   PP=$OUT/patch.diff; [ -f $OUT/patch_rebased.diff ] && PP=$OUT/patch_rebased.diff
   git -C $S apply $PP || { echo "${N}_$k: patch does not apply"; rm -rf $S; continue; }
   RES=""
   for c in $CHECKS; do
-    (cd /verif; VERIF_REPO=$S VERIF_BUILD=/verif/build/harmless_${N}_$k VERIF_EVIDENCE=$OUT/evidence VERIF_REPLAYS=$OUT/replays ./check $c > $OUT/check_$c.txt 2>&1)
+    (cd /verif; VERIF_REPO=$S VERIF_BUILD=/verif/build/${HARMLESS_DIR:-harmless}_${N}_$k VERIF_EVIDENCE=$OUT/evidence VERIF_REPLAYS=$OUT/replays ./check $c > $OUT/check_$c.txt 2>&1)
     rc=$?; nv=$(grep -c "^VIOLATION" $OUT/check_$c.txt)
     RES="$RES $c:exit=$rc,viol=$nv"
   done
-  rm -rf $S /verif/build/harmless_${N}_$k
+  rm -rf $S /verif/build/${HARMLESS_DIR:-harmless}_${N}_$k
   echo "${N}_$k:$RES" | tee $OUT/result.txt
 done
